@@ -28,10 +28,18 @@ func init() {
 	})
 	register(Harness{
 		Prop: "C15", Pkg: "rest", Func: "VerifC15Slow", ExtraPkgs: []string{"msghub"}, InitPkgs: []string{"msghub"},
-		Quick:    [][]int64{{103}},
-		Thorough: [][]int64{{101}, {103}, {120}},
+		Quick:    [][]int64{{103}, {210}},
+		Thorough: [][]int64{{101}, {103}, {120}, {210}, {230}},
 		Unwind:   260,
 		Desc:     "a WebSocket monitor that nobody reads (its 100-slot queue fills) while n > 100 events are dispatched: the hub keeps serving (Sync returns) and a second monitor gets every event in order",
 		Bounds:   "param n (events); one unread msgListenerV2, one counting monitor, one dispatcher goroutine; 3 s watchdog natively",
+	})
+	register(Harness{
+		Prop: "C15", Pkg: "rest", Func: "VerifC15ViaHost", ExtraPkgs: []string{"msghub"}, InitPkgs: []string{"msghub"},
+		Quick:    [][]int64{{2}},
+		Thorough: [][]int64{{2}, {3}},
+		Unwind:   40,
+		Desc:     "the hub fed through the extension host as in the server: a message stored and deleted at once; an attached monitor sees stored before deleted, a monitor joining afterwards is not replayed the deleted message",
+		Bounds:   "param (pre-emption budget for the event dispatch goroutines); one message, two monitors; natively repeated 300 times",
 	})
 }
